@@ -37,6 +37,13 @@ fn cfb_uppercase_char(c: char) -> char {
     case_mapper.simple_uppercase(c)
 }
 
+/// Returns the UTF-16 code units that encode a char.
+fn utf16_code_units(c: char) -> impl Iterator<Item = u16> {
+    let mut buf = [0u16; 2];
+    let len = c.encode_utf16(&mut buf).len();
+    IntoIterator::into_iter(buf).take(len)
+}
+
 /// Compares two directory entry names according to CFB ordering, which is
 /// case-insensitive, and which always puts shorter names before longer names,
 /// as encoded in UTF-16 (i.e. [shortlex
@@ -68,9 +75,19 @@ pub fn compare_names(name1: &str, name2: &str) -> Ordering {
             // particular way of doing the uppercasing on individual UTF-16 code
             // units, along with a list of weird exceptions and corner cases.  But
             // hopefully this is good enough for 99+% of the time.
+            // The names are compared code unit by code unit, not character
+            // by character: a character outside the Basic Multilingual Plane
+            // is a surrogate pair in UTF-16, and so sorts before the
+            // characters U+E000 through U+FFFF.
             Ordering::Equal => {
-                let n1 = name1.chars().map(cfb_uppercase_char);
-                let n2 = name2.chars().map(cfb_uppercase_char);
+                let n1 = name1
+                    .chars()
+                    .map(cfb_uppercase_char)
+                    .flat_map(utf16_code_units);
+                let n2 = name2
+                    .chars()
+                    .map(cfb_uppercase_char)
+                    .flat_map(utf16_code_units);
                 n1.cmp(n2)
             }
             other => other,
